@@ -336,7 +336,7 @@ static void e_path_json(int idx, jb_t *b)
 /* ---------------------------------------------------------------- record output */
 static FILE *e_out;
 static unsigned long e_nrec;
-static int e_fatal_seen;
+static int e_fatal_seen, e_fatal_skipped;
 
 static void e_emit(int sid, const vop_t *op, const char *outcome,
                    const jb_t *res, const char *pre, const char *post,
@@ -393,8 +393,11 @@ static int e_explore(long maxstates)
             e_emit((int)i, &ops[j], outcome, &res, pre.p, post.p, NULL);
             ntr++;
             if (e_is_fatal(outcome)) {
-                /* memory may be corrupt: stop exploring, the record is judged */
-                e_fatal_seen = 1; break;
+                /* memory may be corrupt: stop exploring, the record is judged.  VERIF_SKIP_FATAL: the record did not
+                 * decide the property being checked, so the exploration goes on around it (every state is re-reached
+                 * from reset) for a bounded number of such outcomes */
+                if (!getenv("VERIF_SKIP_FATAL") || ++e_fatal_skipped > 25) { e_fatal_seen = 1; break; }
+                continue;
             }
             if (!strcmp(outcome, "ok") && !drv_terminal(&ops[j]) && e_lookup(post.p) < 0) {
                 if (maxstates > 0 && (long)e_ns >= maxstates) continue;
